@@ -279,6 +279,22 @@ CLAIMED = {
             'POSIX filesystem semantics of the sandbox; astropy '
             'get_readable_fileobj for gzip.',
             'DESIGN.md section 5, C14'),
+    'C13': ('exploration',
+            'Hypothesis rule-based state machine over a shared pool of live '
+            'objects with deep fingerprints of the whole pool and of the '
+            'module-level tables after every step, a memo of earlier results, '
+            'and replays of target operations as the first operation of fresh '
+            'child interpreters with different PYTHONHASHSEED',
+            'Histories of up to 30 operations drawn from 19 kinds of public '
+            'read-only/constructive operations (all three formats, files '
+            'included) on 10 pixel + 4 sky regions, 4 lists, coordinates, '
+            'images and WCSs. Any mutation of any pool object, any change of a '
+            'module table, any result that differs on repetition or from a '
+            'fresh interpreter is reported with the shrunk history.',
+            'Fingerprints of vf/fingerprint.py (canonical, interpreter '
+            'independent); the pool itself is fixed (vf/histops.py), the '
+            'histories are generated.',
+            'DESIGN.md section 5, C13'),
 }
 
 PENDING_REASON = ('check designed (DESIGN.md section 5) but not yet built and '
